@@ -28,13 +28,17 @@ pub fn judge(ctx: &Ctx, l: &mut Local, p: &Params, site: Site, date: NaiveDate) 
     let night = 86400 - day;
     let fi = p.intervals[&Fajr];
     let ii = p.intervals[&Isha];
-    // the policies look at the angle-based (pre-interval) times to decide what is missing
+    // what the policies see when they decide what is missing: the conventional values, where an
+    // interval-defined Fajr/Isha already is "Shurooq - interval" / "Maghrib + interval"
     let has_int = fi != 0.0 || ii != 0.0;
     let mut p_ang = p0.clone();
     p_ang.intervals.insert(Fajr, 0.0);
     p_ang.intervals.insert(Isha, 0.0);
-    let r_ang = if has_int { l.evals += 1; pt(&p_ang, site.loc(), date, Option::None) } else { r0.clone() };
+    let r_ang = r0.clone();
     let any_missing = SIX.iter().any(|pr| r_ang[pr].is_err());
+    // minutes-from-maghrib-invalid consumes the intervals itself (no separate interval step): it looks
+    // at the angle-based values
+    let r_raw = if has_int && pol == MinutesFromMaghribFajrIshaInvalid { l.evals += 1; pt(&p_ang, site.loc(), date, Option::None) } else { r0.clone() };
     let mut engaged = false;
     let mut expect = |pr: Prayer, want: Option<f64>, what: &str, l: &mut Local| {
         let Some(w) = want else { return };
@@ -102,10 +106,10 @@ pub fn judge(ctx: &Ctx, l: &mut Local, p: &Params, site: Site, date: NaiveDate) 
             expect(Isha, Some(m0 as f64 + ii * 60.0), "minutes_formula", l);
         }
         MinutesFromMaghribFajrIshaInvalid => {
-            if r_ang[&Fajr].is_err() {
+            if r_raw[&Fajr].is_err() {
                 expect(Fajr, Some(s0 as f64 - fi * 60.0), "minutes_formula", l);
             }
-            if r_ang[&Isha].is_err() {
+            if r_raw[&Isha].is_err() {
                 expect(Isha, Some(m0 as f64 + ii * 60.0), "minutes_formula", l);
             }
         }
@@ -160,6 +164,7 @@ pub fn explore(ctx: &Ctx) {
     ctx.rule("every (site, date, method/intervals, policy) enumerated once; non-trivial = the policy's formula applied to at least one of Fajr/Isha (or, for nearest-latitude-all, all six) and was judged");
     ctx.assume("formulas evaluated from the conventional (policy None) Shurooq/Maghrib of the same site/date, whole seconds, tolerance 3 s");
     ctx.assume("a substitute-latitude time that does not exist conventionally at the substitute latitude is not judged");
+    ctx.assume("'missing' is decided on the conventional result (policy None), in which an interval-defined Fajr/Isha is already Shurooq - interval / Maghrib + interval");
     ctx.assume("minutes-from-maghrib-invalid is judged with the intervals it consumes (custom Fajr 45 / Isha 90) and with angle methods (interval 0)");
     let lats = [0.0, 30.0, -30.0, 48.5, -48.5, 55.0, -55.0, 60.0, -60.0];
     let zs: Vec<(f64, f64)> = vec![(25.0, 2.0), (-100.0, -6.0)];
